@@ -33,7 +33,7 @@ import (
 //
 // The Impl strings are summaries that do not depend on the schedule when the property holds.
 
-const c17Deadline = 3 * time.Second
+var c17Deadline = 3 * time.Second * slowFactor()
 
 // ---------------------------------------------------------------- recorder
 
